@@ -269,7 +269,7 @@ def summarise(records, tier, seed):
         "evaluations": ag["evaluations"],
         "distinct_nontrivial": len(ag["hashes"]),
         "rule": "expressions with 0, 1, 2 or 3 removable singularities from {u/(exp(u)-1), sin(u)/u, (exp(u)-1)/u, (1-cos u)/u^2, u/u}, u = k(x - a) with dyadic a, in one or two states, combined by + - * with "
-        "smooth terms and optionally a non-removable 1/(x-b); evaluation = remove_singularities() or one call of the new model's monitor_values at a regular point or with exactly one state on a singular value; "
+        "smooth terms and optionally a non-removable 1/(x-b); class applied_twice checks the model returned by a second application to the result of the first (<= 1 removable singularity); evaluation = remove_singularities() or one call of the new model's monitor_values at a regular point or with exactly one state on a singular value; "
         "reference = 60/140-digit evaluation of the original text and its two-sided limit; non-trivial = >= 2 regular and (if any) >= 1 removable point compared; distinct by structural hash",
         "samples": C.pick_samples(records),
         "per_class_cases": ag["classes"],
